@@ -438,6 +438,9 @@ def swap_lint(ctx, rule="R12.4"):
 
 
 def run(ctx):
+    from .C14 import no_shared_parameter_arrays
+
+    no_shared_parameter_arrays(ctx, rule="R12.6")  # angles / anis stored in the model must not share memory with the caller's array (shared with C14)
     inverse_pairs(ctx)
     frames(ctx)
     bookkeeping(ctx)
